@@ -555,9 +555,12 @@ inductive IdKey where
   /-- `_get_collection_type_id(coll_type, subtypes, element_names)` -/
   | coll (ct : Bytes) (subs : List Bytes) (names : Option (List Bytes))
   /-- `_get_object_shape_id(coll_type, subtypes, element_names, cardinalities,
-      links_props=, links=, has_implicit_fields=)` -/
+      links_props=, links=, has_implicit_fields=, sources=)`; `srcs` = the `str(uuid)`
+      texts of the elements' source types, given by `_describe_object_shape` only
+      when some element's source differs from the shape's own type (fix d2d2129) -/
   | shape (base : Bytes) (subs : List Bytes) (names : Option (List Bytes))
       (cards : Option (List Nat)) (lp links : Option (List Bool)) (impl : Bool)
+      (srcs : Option (List Bytes))
   /-- `_get_set_type_id(basetype_id)` -/
   | setOf (sub : Bytes)
 deriving DecidableEq, Repr
@@ -597,6 +600,18 @@ def cardChars (cards : Option (List Nat)) : Option (List Bytes) :=
   | some cs => some (cs.map fun c => [c])
   | none => none
 
+/-- the shape id string up to and including `repr(links)` (all of it before fix d2d2129) -/
+def shapeCore (base : Bytes) (subs : List Bytes) (names : Option (List Bytes))
+    (cards : Option (List Nat)) (lp links : Option (List Bool)) (impl : Bool) : Bytes :=
+  join 0 ([base, join 58 subs] ++ optNames names ++ optPart (cardChars cards)) ++
+    reprBool impl ++ [59] ++ reprOptBools lp ++ [59] ++ reprOptBools links
+
+/-- `if sources: string_id += ';' + ":".join(map(str, sources))` -/
+def srcTail (srcs : Option (List Bytes)) : Bytes :=
+  match truthy srcs with
+  | some l => 59 :: join 58 l
+  | none => []
+
 /-- The string handed to `uuid5(TYPE_ID_NAMESPACE, ·)`, as UTF-8 bytes; `none`
     for the empty tuple, whose id is a constant.
     `_get_collection_type_id` builds `ct + "\0" + ":".join(ids) [+ "\0" + _join_element_names(names)]`,
@@ -605,20 +620,25 @@ def idPreimage : IdKey → Option Bytes
   | .coll ct subs names =>
     if ct = asciiTuple ∧ subs = [] then none else
     some (join 0 ([ct, join 58 subs] ++ optNames names))
-  | .shape base subs names cards lp links impl =>
-    some (join 0 ([base, join 58 subs] ++ optNames names ++ optPart (cardChars cards)) ++
-      reprBool impl ++ [59] ++ reprOptBools lp ++ [59] ++ reprOptBools links)
+  | .shape base subs names cards lp links impl srcs =>
+    some (shapeCore base subs names cards lp links impl ++ srcTail srcs)
   | .setOf sub => some (asciiSetOf ++ sub)
 
-/-- The id strings BEFORE fix c2beb91: element names joined with `:` as they are. -/
+/-- The id strings BEFORE fix c2beb91: element names joined with `:` as they are
+    (and no source types). -/
 def idPreimageBuggy : IdKey → Option Bytes
   | .coll ct subs names =>
     if ct = asciiTuple ∧ subs = [] then none else
     some (join 0 ([ct, join 58 subs] ++ optPart names))
-  | .shape base subs names cards lp links impl =>
+  | .shape base subs names cards lp links impl _ =>
     some (join 0 ([base, join 58 subs] ++ optPart names ++ optPart (cardChars cards)) ++
       reprBool impl ++ [59] ++ reprOptBools lp ++ [59] ++ reprOptBools links)
   | .setOf sub => some (asciiSetOf ++ sub)
+
+/-- The id strings BEFORE fix d2d2129: the source types of the elements are ignored. -/
+def idPreimageNoSources : IdKey → Option Bytes
+  | .shape base subs names cards lp links impl _ => some (shapeCore base subs names cards lp links impl)
+  | k => idPreimage k
 
 def hexDigit (n : Nat) : Nat := if n < 10 then 48 + n else 87 + n
 def hexByte (b : Nat) : Bytes := [hexDigit (b / 16 % 16), hexDigit (b % 16)]
